@@ -39,11 +39,11 @@ def _with_replacement(pair):
 
 
 def strata(tier):
-    return [(e[0], st.tuples(e[1], st.sampled_from([0, 0, 1, 2])).map(_with_replacement)) if e[0] != 'unstorable-result' else e for e in _strata(tier)]
+    return [(e[0], st.tuples(e[1], st.sampled_from([0, 0, 1, 2])).map(_with_replacement)) if not e[0].startswith('unstorable-result') else e for e in _strata(tier)]
 
 
 def _strata(tier):
-    return [('unstorable-result', unstorable_cases())] + G.strata_grid(
+    return [('unstorable-result/' + a, unstorable_cases(a)) for a in ('lru', 'lfu', 'mru', 'rr')] + G.strata_grid(
         algos=('lru', 'mru', 'lfu', 'rr', 'no'), maxsizes=(2, 1, 3, 5), purges=(False, True), backends=BACKENDS, families=('memarch', 'persist'),
         weights={'call': 14, 'burst': 1, 'load': 2, 'dump': 1, 'dumpk': 1, 'loadk': 1, 'clear': 1, 'clearkeep': 0,
                  'arch_off': 1, 'arch_on': 2, 'awrite': 1, 'reattach': 1, 'adel': 1},
@@ -147,11 +147,11 @@ def check_trace(case, tr):
 # ------------------------------------------------------------ results the archive cannot encode
 
 @st.composite
-def unstorable_cases(draw):
+def unstorable_cases(draw, algo=None):
     """a result the attached archive cannot store (tuple for sqlite, generator for the pickling archives): the eviction that should write it fails.
     'before it is dropped': an entry whose archive write failed must not leave memory"""
     backend = draw(st.sampled_from(['sql_mem', 'file_pkl', 'dir_dill', 'sql_file']))
-    return {'mode': 'unstorable', 'module': draw(st.sampled_from(['std', 'safe'])), 'algo': draw(st.sampled_from(['lru', 'lfu', 'mru', 'rr'])),
+    return {'mode': 'unstorable', 'module': draw(st.sampled_from(['std', 'safe'])), 'algo': algo or draw(st.sampled_from(['lru', 'lfu', 'mru', 'rr'])),
             'maxsize': draw(st.integers(1, 3)), 'backend': backend, 'poison': draw(st.integers(0, 5)),
             'calls': draw(st.lists(st.tuples(st.integers(0, 5), st.integers(0, 7)).map(list), min_size=3, max_size=14))}
 
